@@ -149,6 +149,13 @@ func GetFingerprint(q string) string {
 					fmt.Println("Quote literal")
 				}
 				escape = false
+			} else if qi+1 < len(q) && rune(q[qi+1]) == quoteChar {
+				// '' or "" inside the quoted value is an escaped quote char,
+				// the next char is skipped like in \' and \"
+				if Debug {
+					fmt.Println("Doubled quote")
+				}
+				escape = true
 			} else {
 				// 'foo' -> ?
 				// "foo" -> ?
@@ -560,7 +567,14 @@ func GetFingerprint(q string) string {
 				s = opOrNumber
 			}
 		case r == '.':
-			if s == inNumber || s == inOp {
+			if (s == inSpace || s == unknown) && q[qi+1] >= '0' && q[qi+1] <= '9' {
+				// .5 after white space is a number like 0.5
+				if Debug {
+					fmt.Println("Number literal with leading dot")
+				}
+				s = inNumber
+				cpToOffset = qi
+			} else if s == inNumber || s == inOp {
 				if Debug {
 					fmt.Println("Floating point number")
 				}
